@@ -226,6 +226,9 @@ def merge(results):
             if why not in m['inconclusive']:
                 m['inconclusive'].append(why)
         m['timeouts'] += r.get('timeouts', 0)
+        for f, info in (r.get('reach') or {}).items():
+            e = m.setdefault('reach', {}).setdefault(f, {'executed': set(), 'executable': info['executable']})
+            e['executed'].update(info['executed'])
     return m
 
 
@@ -244,6 +247,8 @@ def write_evidence(prop, tier, seed, level, m, meta, wall, nviol):
         'case_timeouts_inconclusive': m['timeouts'],
         'shards_failed': len(m['bad_shards']),
     }
+    if m.get('reach'):
+        cov['code_reach'] = {f: f"{len(e['executed'])}/{e['executable']} statements" for f, e in sorted(m['reach'].items()) if e['executable']}
     if meta.get('exhaustive') is not None:
         cov['exhaustive'] = bool(meta['exhaustive'])
     if meta.get('extra'):
